@@ -21,6 +21,7 @@ import shutil
 import struct
 import subprocess
 import sys
+import threading
 import time
 
 sys.path.insert(0, os.path.dirname(os.path.abspath(__file__)))
@@ -723,6 +724,8 @@ def path_cases(c, res, ident):
     cur = res["version"]
     ops = res["job"].get("path_ops") or []
     loads = [o for o in ops if o["op"] == "load"]
+    if not res.get("cache_written"):
+        return   # reported as cache-write above; the history needs the case's valid cache
     if len(recs) != len(loads):
         c.violation("path-history", "the path history did not run to its end", dict(ident, loads=len(loads), records=len(recs)), no_input=True)
         return
@@ -801,8 +804,10 @@ def main():
                      "sidewalk regions, a band outside, element boundaries pushed out by fractions of the tolerance; non-trivial when at "
                      "least two elements are within reach of the point) and cache-protocol probes (non-trivial when something was changed)")
     common.ensure_parser()
+    t_start = time.time()
     if not c.proofs():
         c.finish()
+    phase = {"proofs_and_lock_wait": round(time.time() - t_start, 1)}
     quick = c.tier == "quick"
     rng = c.rng
     c20_gen.PICKLE_MAX = None   # pickle_bad is evaluated for every network (vm_compute; the instance theorem is closed by a VM cast)
@@ -847,9 +852,18 @@ def main():
         chunks[k].append(j)
         load[k] += os.path.getsize(j["map"]) + 150_000
     results = []
+    # the options-hash cases need one more implementation process: run it beside the chunks (all jobs are generated, so the
+    # seeded stream is consumed in a fixed order; the verdicts are collected before judging starts)
+    hash_box = {}
+    hash_thread = threading.Thread(target=lambda: hash_box.update(frames=hash_cases(c, rng, quick)))
+    hash_thread.start()
     with cf.ThreadPoolExecutor(len(chunks)) as ex:
         for rs in ex.map(run_chunk, list(enumerate(chunks))):
             results += rs
+    hash_thread.join()
+    if "frames" not in hash_box:
+        raise RuntimeError("hash cases did not finish")
+    phase["networks_impl_and_kernel"] = round(time.time() - t_start - phase["proofs_and_lock_wait"], 1)
     cache_terms = []
     for r in results:
         terms = judge(c, r)
@@ -861,7 +875,7 @@ def main():
                           maneuvers=len(r["parsed"]["mans"]), an_element={k: v for k, v in e.items() if k != "geo"},
                           a_point=r["points"][0] if r["points"] else None, kernel=r.get("printed"), gen=r.get("gen")), limit=3)
     # ---- cache protocol + framing cases, evaluated by the kernel
-    frames = hash_cases(c, rng, quick)
+    frames = hash_box["frames"]
     text = ("From Coq Require Import List Bool NArith.\nFrom Scenic Require Import C20.Network.\nImport ListNotations.\n"
             "Definition cc : list cache_case := [\n " + ";\n ".join(t for t, _ in cache_terms) + "].\n"
             "Definition cbad := Eval vm_compute in failing_idx cache_ok cc 0%N.\nPrint cbad.\n"
@@ -869,6 +883,7 @@ def main():
             "Definition pbad := Eval vm_compute in failing_idx path_ok pc 0%N.\nPrint pbad.\n"
             "Definition fc : list (list (list byte * option (list byte)) * list byte) := [\n " + ";\n ".join(frames) + "].\n"
             "Definition fbad := Eval vm_compute in failing_idx frame_ok fc 0%N.\nPrint fbad.\n")
+    phase["judge"] = round(time.time() - t_start - sum(phase.values()), 1)
     ok, out = common.run_coq_cases("C20_Cache" + TAG, text, timeout=900)
     if not ok:
         c.violation("kernel", "gen/C20_Cache.v does not check", dict(log=out[-2000:]), no_input=True)
@@ -888,6 +903,8 @@ def main():
                             items[i][1] if items else dict(case=frames[i]))
     c.cov["cache_cases"] = len(cache_terms)
     c.cov["path_cases"] = len(PATH_TERMS)
+    phase["cache_kernel"] = round(time.time() - t_start - sum(phase.values()), 1)
+    c.cov["phase_s"] = phase
     c.cov["framing_cases"] = len(frames)
     c.cov["timing"] = dict(path_history_s=round(sum(r.get("path_s", 0) for r in results), 1), parse_s=round(sum(r.get("parse_s", 0) for r in results), 1),
                            impl_s=round(sum(r.get("impl_s", 0) for r in results), 1), coq_s=round(sum(r.get("coq_s", 0) for r in results), 1))
